@@ -60,23 +60,56 @@ prop("C08", "other", _GENERIC + "Proved: the budget invariant of reserve/release
      "what they were). Message.to_wire control, reserve exactness and padding are bounded.")
 prop("C09", "other", _GENERIC + "Proved: the CNAME/other-data classification rule (NodeKind.classify) against the RFC rule. The field "
      "grammar of the reader and emitter, directives and $GENERATE are decided by the bounded stand-in.")
-prop("C10", "other", _GENERIC + "Proved: RFC 1982 Serial arithmetic and comparison contracts and the increment lemma. Transactions are bounded.")
+prop("C10", "other", _GENERIC + "Proved: RFC 1982 Serial arithmetic and comparison contracts and the increment lemma; the transaction "
+     "life cycle (_check_ended, _end, commit, rollback, __exit__: ended transactions refuse use, a clean exit commits, an exit through "
+     "an exception rolls back and is never swallowed, the ended flag is set whatever the zone's hook does) against an assumed contract "
+     "of the abstract _end_transaction hook. The content of zones after sequences of operations is bounded.",
+     assumptions=["A-hook: each zone kind's _end_transaction commits or rolls back as told (its effect on the zone is checked by the bounded stand-in)"])
 prop("C11", "other", _GENERIC + "Discharged: the mechanical lock-discipline obligations of dns.versioned.Zone (readers pick and register "
-     "their version under the lock). Snapshot isolation, retention and immutability are bounded.")
+     "their version under the lock); version retention on the real functions in a symbolic heap: _prune_versions_unlocked (only the "
+     "old end is removed, never the newest version nor anything at or after the oldest version an open reader holds, for every answer "
+     "of the policy callable; terminates), _commit_version_unlocked (modularly over the pruning contract), _get_next_version_id "
+     "(greater than every retained id) and the lemma that a pinned version keeps its shifted position. Snapshot isolation of reads, "
+     "the reader registry and immutability are bounded.",
+     assumptions=["A-policy: the pruning policy is an arbitrary callable returning a truth value and not touching the zone"])
 prop("C12", "other", _GENERIC + "Discharged: the mechanical lock-discipline obligations (every access of the writer/reader state under "
-     "_version_lock or in *_unlocked methods whose call sites hold it; no blocking call under the lock). The monitor invariant itself "
-     "is not proved; schedules are enumerated by the bounded stand-in. Liveness under an unfair scheduler is out of reach.")
-prop("C13", "other", _GENERIC + "Proved: RFC 1982 Serial comparison used for 'serial went backwards'. The transfer state machine is bounded.")
+     "_version_lock or in *_unlocked methods whose call sites hold it; no blocking call under the lock); the hand-over step on the "
+     "real functions: _maybe_wakeup_one_waiter_unlocked and _end_write_unlocked wake exactly the head of the waiter queue, make its "
+     "event the token writer() compares against, and keep the order of the others (FIFO). The monitor invariant over whole "
+     "schedules is not proved; schedules are enumerated by the bounded stand-in. Liveness under an unfair scheduler is out of reach.",
+     assumptions=["A-event: threading.Event.set() sets that event only (assumed contract)"])
+prop("C13", "other", _GENERIC + "Proved: RFC 1982 Serial comparison used for 'serial went backwards'; the transaction life cycle the "
+     "transfer relies on (commit/rollback/__exit__, see C10); the transfer state machine itself, on the real "
+     "Inbound.process_message with its collaborators abstracted by stub classes under assumed contracts (names, rdatasets, "
+     "transaction manager, transaction): commit is the last action, at most once, only after the final SOA and the rest of the "
+     "message; every raised error (only the documented ones can be raised) leaves every transaction uncommitted; a replaced or "
+     "finished transaction is never leaked; Inbound.__exit__ rolls back what is open. Quick tier: the AXFR half; thorough tier: "
+     "the full machine (about 5400 VCs). Convergence to the server's content is bounded.",
+     assumptions=["A-stub: records, names and transactions seen by process_message satisfy the stub contracts in contracts/xfr.py "
+                  "(name identity, in-zone predicate, content signature, a transaction that commits or raises without effect)"])
 prop("C14", "other", _GENERIC + "Proved: dns.tsig._digest feeds the HMAC exactly the RFC 8945 4.3 digest components (first and "
      "subsequent messages, request MAC prefix, 48-bit time split) and _maybe_start_digest primes the next context with the "
      "length-prefixed MAC; the HMAC context is a ghost concatenation (assumed). sign/validate composition and rejection are bounded.",
      assumptions=["A-crypto: hashlib/hmac are trusted"])
 prop("C15", "other", _GENERIC + "Proved: DNSKEY key tag (RFC 4034 appendix B) with loop invariant over the real loop. Other computations are bounded.",
      assumptions=["A-crypto: hash functions are trusted"])
-prop("C16", "other", _GENERIC + "Proved: the lifetime budget (_compute_timeout) over reals with an external clock. The resolution state machine is bounded.",
-     assumptions=["A-float: clock readings and timeouts are reals"])
+prop("C16", "other", _GENERIC + "Proved: the lifetime budget (_compute_timeout) over reals with an external clock; the two steps of "
+     "the resolution state machine on the real code: next_nameserver (single TCP retry on the same server after truncation, list "
+     "order, re-arming with exponential back-off capped at 2 s, NoNameservers exactly when nothing is left) and query_result (which "
+     "outcomes end the resolution, which remove the server for good, which arm the TCP retry, NXDOMAIN recording, caching under "
+     "(qname, rdtype, rdclass) through the proved Cache.put contract). The composition into whole resolutions, search lists and "
+     "CNAME chaining are bounded.",
+     assumptions=["A-float: clock readings and timeouts are reals",
+                  "A-abs: nameserver objects, Answer construction and rcode text are abstracted by assumed contracts (listed in the trusted base)"])
 prop("C17", "other", _GENERIC + "Discharged: the mechanical lock-discipline obligations of the cache classes (linearizability by one "
-     "lock hold per public method). Freshness, LRU order and counters are bounded.")
+     "lock hold per public method); on the real functions, in a symbolic heap: Cache._maybe_clean/get/put/flush (never an answer "
+     "at or after its expiration, the stored unexpired answer is found, exactly one counter moves, only expired entries disappear), "
+     "LRUCacheNode.link_after/unlink (all aliasing cases), LRUCache.get and, in the thorough tier, LRUCache.get#ring and "
+     "LRUCache.put with a ghost recency order (bound never exceeded, eviction strictly from the least-recently-used end, hit moves "
+     "to the front, ring and dict stay in step, no KeyError), plus the ring lemma for unlink. set_max_size/flush of the LRU, "
+     "whole histories and thread schedules are bounded.",
+     assumptions=["A-key: cache keys are abstracted to integers (a key is only hashed and compared)",
+                  "A-float: clock readings are reals and never decrease"])
 prop("C18", "other", _GENERIC + "Proved: stream framing loops _net_read, _net_write and the async _read_exactly against an assumed "
      "socket contract (any fragmentation into chunks and would-block events yields exactly the requested octets in order, or "
      "EOFError/Timeout, never a short result). is_response, source matching and the receive loops are bounded.",
